@@ -227,6 +227,35 @@ PROPS = {
   'trusted_base': ['hand models tied by differential execution'],
   'assumptions': ['finish() may succeed once after the last frame (documented way to read trailing metadata)'],
  },
+ 'C12': {
+  'level_text': 'Coq theorem (closed under the global context): for EVERY configuration (still or animated with any frame count, default image in/out of the animation, PLTE, ancillary chunks) and a history supplying exactly the '
+                'declared images, each as any positive number of data chunks, the chunk-kind sequence emitted by the Writer model is accepted by the strict ordering validator (IHDR first, acTL before IDAT, one fcTL per frame, IDAT '
+                'only for the first image, fdAT afterwards, sequence numbers 0.. without gaps, frame count = acTL, IEND last and once) - by a simulation invariant between writer and validator, not by enumeration. Bytes (lengths, '
+                'CRCs, zlib streams ending exactly, inflated sizes, filter bytes) are validated on every run by an independent strict validator; known finding: StreamWriter on an animated encoder.',
+  'level_note': 'Trusted: Coq kernel; hand model of the chunk-level Writer (coq/Model/Encoder.v) tied by differential execution (chunk-kind sequences of whole-image histories); independent validator harness/src/validator.rs '
+                '(own chunk parser, crc32fast, flate2 inflate with exact-consumption check). The StreamWriter-on-animated-encoder path is a listed known finding and is not modelled faithfully.',
+  'gen_items': [],
+  'model_name': 'Model/Encoder.v emitted; Spec/Validator.v conformant',
+  'rule': 'cases = random encoder configurations (15 colour/depth pairs, sizes 1-8 x 1-7, still / animated 1-4 frames, separate default image, 17 compression settings, 6 filters, palette) x histories that supply exactly the declared images '
+          'through write_image_data or stream_writer_with_size(1..4096) with random write partitions, interleaved with raw chunks, text chunks, sub-frame dimensions/positions, delays, blend/dispose ops, filter changes; sinks accepting '
+          'short writes; finish or drop. Every accepted history\'s bytes go through the strict validator; whole-image histories also through the Coq model. distinct = (colour, depth, frames, sep, stream, finish).',
+  'trusted_base': ['hand model coq/Model/Encoder.v tied by differential execution', 'independent validator harness/src/validator.rs'],
+  'assumptions': ['the first image of an animation covers the canvas (sub-frame setters are applied from the second image on)'],
+ },
+ 'C19': {
+  'level_text': 'PARTIAL. Coq theorem shared with C12 (closed under the global context): the Writer model emits exactly one IEND, last, for every configuration and declared history (so Ok from finish of a history without sink failure is a complete '
+                'stream). The rest of the property - no panic for arbitrary op sequences, clean errors under sink failures at every call index (once / permanently), sequence validation, no second IEND from Drop - is about Rust '
+                'Drop order and io::Error plumbing which the chunk-level model does not represent; it is decided on every run by fault enumeration: every history is replayed with the sink failing at each of its calls.',
+  'level_note': 'Trusted: hand model of the Writer tied by correspondence (C12); fault-injecting sink harness/src/c12.rs. Known findings listed in known_findings.json: sink failures swallowed after StreamWriter::finish; validation skipped by '
+                'into_stream_writer; frame miscount of stream writers on animated encoders. Three defects repaired by fix: commits (size overflow, tiny chunk buffer panic/abort, first streamed image not validated).',
+  'gen_items': [],
+  'model_name': 'Model/Encoder.v (shared with C12)',
+  'rule': 'cases = random configurations (incl. zero and 2^32-1 dimensions) x arbitrary histories (fewer / exact / more images than declared, illegal setter arguments, stream writers with buffer sizes 0..4096, owned stream writers stopping '
+          'mid-frame, raw/text chunks) x validation on/off x finish or drop x the sink failing at EVERY call index of the history (sampled above 48 calls; all thorough), once and permanently, with and without short writes. Rules: no panic; '
+          'at most one IEND in the accepted bytes; finish Ok with no earlier error => complete chunk stream ending in one IEND; with validation, image count = declared. distinct = (frames, validation, history length, failure plan).',
+  'trusted_base': ['fault enumeration harness (exploration/fault_enumeration, not proof)'],
+  'assumptions': ['"finish Ok => complete" is read for histories in which no earlier call returned Err'],
+ },
 }
 
 NOT_APPLICABLE = {}
